@@ -18,7 +18,10 @@ Idle == [phase |-> "idle"]
 Init == l = 1 /\ st = Idle
 
 Start(e) == st.phase = "idle" /\ e.scale \in {20000, 1000000, 100000000}
-            /\ st' = [phase |-> "started", scale |-> e.scale, files |-> {e.files[i] : i \in 1..Len(e.files)}, nbits |-> e.nbits,
+            /\ st' = [phase |-> "started", scale |-> e.scale, files |-> {e.files[i] : i \in 1..Len(e.files)},
+                      \* files whose suffix is .bin/.dat up to letter case: the property does not say whether ".BIN" is a sample;
+                      \* either reading is accepted, but it must be ONE reading: all of them reported, or none
+                      optional |-> {e.optional[i] : i \in 1..Len(e.optional)}, nbits |-> e.nbits,
                       exempt |-> e.exempt, cells |-> <<>>, seen |-> {}]
 Header(e) == /\ st.phase = "started"
              /\ HeaderOK(st.scale, e.cells)
@@ -27,7 +30,7 @@ Header(e) == /\ st.phase = "started"
 Lookup(table, t, p) == CHOOSE r \in {table[i] : i \in 1..Len(table)} : r.t = t /\ r.p = p
 Has(table, t, p) == \E i \in 1..Len(table) : table[i].t = t /\ table[i].p = p
 Row(e) == /\ st.phase = "rows"
-          /\ e.name \in st.files /\ e.name \notin st.seen                    \* a sample file, reported once
+          /\ e.name \in (st.files \cup st.optional) /\ e.name \notin st.seen                    \* a sample file, reported once
           /\ Len(e.vals) = Len(st.cells)                                      \* as many value columns as the header
           /\ \A c \in 1..Len(st.cells) :
                LET cell == st.cells[c]  t == NumTest(st.scale, cell.num) IN
@@ -35,7 +38,7 @@ Row(e) == /\ st.phase = "rows"
                /\ LET v == Field(Lookup(e.table, t, cell.p), cell.which) IN RIsNum(v) /\ RIsNum(e.vals[c]) /\ e.vals[c] = RFixed(v, 6)
           /\ st' = [st EXCEPT !.seen = @ \cup {e.name}]
 Exit(e) == /\ st.phase = "rows" /\ e.hang = FALSE /\ e.code = 0
-           /\ st.seen = st.files                                             \* exactly one row per sample file
+           /\ (st.seen = st.files \/ st.seen = st.files \cup st.optional)     \* exactly one row per sample file
            /\ st' = Idle
 \* beyond the listed property: a directory whose samples have none of the three supported sizes is refused -- the tool
 \* terminates and leaves no report behind (usage text: "支持单文件规模 [20 000, 1 000 000, 100 000 000]")
